@@ -134,6 +134,20 @@ def run(ctx: Ctx) -> RuleResult:
     site = '%s %s' % (mt.loc(), mt.qual)
     ok = has_pat(mt.body_nodes(), 'for $t in $e.iter_subtrees():\n    for $i, $c in enumerate($t.children):\n        if isinstance($c, Symbol):\n'
                                   '            $t.children[$i] = $c.renamed(%s)' % mp)
+    if not ok:
+        # the same as one slice assignment: t.children[:] = [c.renamed(mangle) if isinstance(c, Symbol) else c for c in t.children]
+        for l_ in [l for l in mt.body_nodes() if isinstance(l, ast.For) and norm(l.iter).endswith('.iter_subtrees()') and isinstance(l.target, ast.Name)]:
+            tv = l_.target.id
+            for a_ in l_.body:
+                if isinstance(a_, ast.Assign) and len(a_.targets) == 1 and norm(a_.targets[0]) in ('%s.children[:]' % tv, '%s.children' % tv) \
+                        and isinstance(a_.value, ast.ListComp) and len(a_.value.generators) == 1 and not a_.value.generators[0].ifs \
+                        and norm(a_.value.generators[0].iter) == '%s.children' % tv and isinstance(a_.value.elt, ast.IfExp):
+                    cv = norm(a_.value.generators[0].target)
+                    e_ = a_.value.elt
+                    pos = bool_relation(e_.test, ast.parse('isinstance(%s, Symbol)' % cv, mode='eval').body)
+                    ren, keep = (e_.body, e_.orelse) if pos == 'same' else (e_.orelse, e_.body)
+                    if pos in ('same', 'negated') and norm(ren) == '%s.renamed(%s)' % (cv, mp) and norm(keep) == cv:
+                        ok = True
     res.ob(site, 'm2: every Symbol in every subtree is renamed through the mangle', ok)
     if not ok:
         res.finding(mt, mt.node, '_mangle_definition_tree does not rename every Symbol child of every subtree', construct='m2:tree')
@@ -272,6 +286,31 @@ def run(ctx: Ctx) -> RuleResult:
         res.finding(ru, stores[0] if stores else ru.node, '_remove_unused no longer keeps exactly the definitions reachable from the imported names '
                     '(%s): an unused terminal or rule of the imported grammar leaks into the importer -- an unused keyword terminal then '
                     'captures the importer\'s own string literal' % why, construct='m5:prune-filter')
+    # ---- search order: the user's import paths first, the importing file's directory next, lark's own library last ------------------------
+    di_ = repo.func(LG + 'GrammarBuilder.do_import')
+    tt = [a for a in di_.body_nodes() if isinstance(a, ast.BinOp) and isinstance(a.op, ast.Add) and 'stdlib_loader' in norm(a)
+          and not (isinstance(parent(a), ast.BinOp) and isinstance(parent(a).op, ast.Add))]
+    if len(tt) != 1:
+        raise AnalysisError('R-MANGLE-PROTOCOL: do_import: cannot find the list of places to try')
+    tt = [ast.copy_location(ast.Assign(targets=[ast.Name(id='to_try', ctx=ast.Store())], value=tt[0]), tt[0])]
+
+    def flat_add(e):
+        return flat_add(e.left) + flat_add(e.right) if isinstance(e, ast.BinOp) and isinstance(e.op, ast.Add) else [e]
+    parts = [norm(x) for x in flat_add(tt[0].value)]
+    ok = len(parts) >= 2 and parts[0].endswith('.import_paths') and parts[-1] == '[stdlib_loader]'
+    res.ob('%s %s' % (di_.loc(tt[0]), di_.qual), 'imports are searched in the user\'s import_paths first and in lark\'s own library last', ok)
+    if not ok:
+        res.finding(di_, tt[0], 'the places an import is searched in are %s: a module of the user that has the name of a library module (common.lark) is '
+                    'no longer found first' % parts, construct='search-order')
+    ofp = repo.func('lark.lark:Lark.open_from_package')
+    apps = [c for c in ofp.body_nodes() if isinstance(c, ast.Call) and isinstance(c.func, ast.Attribute) and c.func.attr == 'append' and c.args
+            and "import_paths" in norm(c.func.value)]
+    from ..exprs import path_conditions as _pc3
+    ok = len(apps) == 1 and not _pc3(enclosing_stmt(apps[0]))
+    res.ob('%s %s' % (ofp.loc(), ofp.qual), 'open_from_package adds the package loader to import_paths whether or not the caller passed some', ok)
+    if not ok:
+        res.finding(ofp, ofp.node, 'open_from_package no longer appends the package loader to the import paths unconditionally: with import_paths given by the '
+                    'caller, relative imports inside the package grammar are not found', construct='package-loader')
     # ---- e1: %extend changes the existing definition in place ------------------------------------------------------------
     # (terminals are expanded by reference: another definition that already mentions the extended one shares its tree, and an
     #  imported grammar's definitions reach the importer as the same objects)
